@@ -9,6 +9,12 @@ pub const TOL: f64 = 1e-9;
 /// error without bound: such results are outside what the tolerance can decide
 pub fn ill_conditioned(fl: &Flags, a: f64, b: f64, r: f64) -> R<()> {
     if fl.scope_only.get() { return Ok(()); }
+    // cancellation may be spread over several sums (60.29 - 63 + e): compare with the largest inexact magnitude seen on the way
+    if fl.tol.get() > 0.0 {
+        let m = fl.max_inexact.get().max(a.abs()).max(b.abs());
+        if a.abs().max(b.abs()).is_finite() { fl.max_inexact.set(m); }
+        if r.is_finite() && r.abs() < 1e-3 * m { return Err(Stop::Unspec("CancellationAfterInexactOperation")); }
+    }
     if fl.tol.get() > 0.0 && r.is_finite() && r.abs() < 1e-3 * a.abs().max(b.abs()) { Err(Stop::Unspec("CancellationAfterInexactOperation")) } else { Ok(()) }
 }
 
@@ -30,6 +36,12 @@ pub fn amplifies(fl: &Flags, magnitude: f64) -> R<()> {
     if fl.tol.get() > 0.0 && !(magnitude.abs() <= 1e2) { Err(Stop::Unspec("ErrorAmplificationAfterInexactOperation")) } else { Ok(()) }
 }
 
+/// a power with a negative base is defined only for an integral exponent: when the exponent comes out of an inexact operation
+/// (x rad °, which is not exactly x) whether it is integral cannot be decided within a tolerance
+pub fn neg_base_inexact(fl: &Flags, base: f64) -> R<()> {
+    if fl.tol.get() > 0.0 && !fl.scope_only.get() && base < 0.0 { Err(Stop::Unspec("NegativeBaseAfterInexactOperation")) } else { Ok(()) }
+}
+
 /// an inexact (tolerance-checked) result at the edge of the double range: one side may be inf, the other just below MAX
 pub fn near_overflow(v: f64) -> R<f64> {
     if v.is_finite() && v.abs() > 1e300 { Err(Stop::Unspec("InexactNearOverflow")) } else { Ok(v) }
@@ -46,6 +58,12 @@ impl F64Sem {
 pub fn factorial_f64(x: f64, fl: &Flags) -> R<f64> {
     if x.is_nan() { return Err(Stop::Unspec("FactorialOfNaN")); }
     at_discontinuity(fl, x, "int")?;
+    // next to a pole (a negative integer) Gamma amplifies the error of its argument - and of pi x in the reflection formula - by the
+    // reciprocal of the distance
+    if x < 0.0 && !fl.scope_only.get() {
+        let dist = (x - x.round()).abs();
+        if dist > 0.0 && (dist < 1e-7 || (fl.tol.get() > 0.0 && dist < 0.05)) { return Err(Stop::Unspec("FactorialNearPole")); }
+    }
     // Gamma amplifies the relative error of its argument by about x ln x
     if fl.tol.get() > 0.0 && !fl.scope_only.get() && !(x.abs() <= 30.0) { return Err(Stop::Unspec("ErrorAmplificationAfterInexactOperation")); }
     if x >= 0.0 && x.fract() == 0.0 {
@@ -151,7 +169,7 @@ pub fn fn2_f64(func: &str, a: f64, b: f64, fl: &Flags) -> R<f64> {
     if func == "Pow" || func == "Root" { amplifies(fl, if func == "Pow" { b } else { 1.0 / a })?; }
     match func {
         "Mod" => { if fl.tol.get() > 0.0 && !fl.scope_only.get() { return Err(Stop::Unspec("RemainderOfInexactOperand")); } Ok(a % b) }
-        "Pow" => { if a.fract() == 0.0 && b.fract() == 0.0 && b < 0.0 { fl.int_negpow.set(true); } Ok(a.powf(b)) }
+        "Pow" => { neg_base_inexact(fl, a)?; if a.fract() == 0.0 && b.fract() == 0.0 && b < 0.0 { fl.int_negpow.set(true); } Ok(a.powf(b)) }
         "Atan2" => t(a.atan2(b)),
         "Log" => t(a.ln() / b.ln()),
         "Root" => t(b.powf(1.0 / a)),
@@ -191,7 +209,7 @@ impl Sem for F64Sem {
             "add" | "sub" => { let r = if op == "add" { a + b } else { a - b }; ill_conditioned(&self.flags, a, b, r)?; Ok(r) }
             "mul" => Ok(a * b), "div" => Ok(a / b),
             "mod" => { if self.flags.tol.get() > 0.0 && !self.flags.scope_only.get() { return Err(Stop::Unspec("RemainderOfInexactOperand")); } Ok(a % b) }
-            "pow" => { amplifies(&self.flags, b)?; if a.fract() == 0.0 && b.fract() == 0.0 && b < 0.0 { self.flags.int_negpow.set(true); } Ok(a.powf(b)) }
+            "pow" => { amplifies(&self.flags, b)?; neg_base_inexact(&self.flags, a)?; if a.fract() == 0.0 && b.fract() == 0.0 && b < 0.0 { self.flags.int_negpow.set(true); } Ok(a.powf(b)) }
             _ => Err(Stop::Unspec("UnknownBinary")),
         }
     }
